@@ -9,6 +9,7 @@ pub mod choices;
 pub mod configs;
 pub mod driver;
 pub mod elem;
+pub mod grid;
 pub mod ops_lazy;
 pub mod ops_misc;
 pub mod ops_range;
